@@ -147,7 +147,12 @@ HOSTILE = [
     "§1983", "v.", " v. ", "\tv.", "\nv. ", "supra", "Id.", "id.,", "ibid.", " at ", "at 5", "¶5",
 ]
 SEPARATORS = [" ", " ", " ", "; ", ". ", ", ", "\n", "  ", "", "\t", " ", ".\n", " and ", "; see also "]
-DIGIT_RUNS = [5, 6, 9, 20, 100, 1000, 4299, 4300, 4301, 5000]
+DIGIT_RUNS = [5, 6, 9, 20, 100, 1000, 4299, 4300, 4301, 5000]  # int() refuses more than 4300 digits
+
+
+def digit_run_len(rng):
+    """half of the runs sit at / above the int() limit, the rest are short"""
+    return rng.choice([4300, 4301, 5000]) if rng.random() < 0.5 else rng.choice(DIGIT_RUNS[:7])
 
 
 def boundary_years():
@@ -231,7 +236,7 @@ def reporter(rng):
 
 def party(rng):
     r = rng.random()
-    if r < 0.22:
+    if r < 0.08:
         return rng.choice(NOMINATIVE)
     return rng.choice(PARTIES)
 
@@ -430,7 +435,7 @@ def f_id_after_odd_page(rng):
     if r < 0.4:
         pg = rng.choice(["___", "_", "____"])
     elif r < 0.8:
-        pg = rng.choice("123456789") * rng.choice(DIGIT_RUNS)
+        pg = rng.choice("123456789") * digit_run_len(rng)
     else:
         pg = rng.choice(["xii", "5", "100", "0"])
     lead = rng.choice(
@@ -441,7 +446,7 @@ def f_id_after_odd_page(rng):
             f"{rng.choice(LAWS)}",
         ]
     )
-    follow = rng.choice(["Id. at 5.", "Id. at 5.", "id. at 1", "Ibid.", "Id., at 99999", f"Id. at {rng.choice('123456789') * rng.choice(DIGIT_RUNS[:6])}"])
+    follow = rng.choice(["Id. at 5.", "Id. at 5.", "id. at 1", "Ibid.", "Id., at 99999", f"Id. at {rng.choice('123456789') * rng.choice(DIGIT_RUNS[:6])}", f"Id. at {rng.choice('123456789') * digit_run_len(rng)}."])
     return f"{lead}{rng.choice(['. ', '; ', ' ', '.\n'])}{follow}"
 
 
@@ -503,7 +508,7 @@ DEFAULT_MIX = [
     ("full", 14), ("bare", 6), ("parallel", 7), ("nameless_run", 5), ("short", 9), ("short_parallel", 5),
     ("supra", 5), ("id", 6), ("law", 5), ("journal", 4), ("placeholder", 3), ("cal_year", 5),
     ("string_cite", 4), ("nested_paren", 4), ("nominative_overlap", 5), ("odd_v", 5), ("reference", 5),
-    ("id_after_odd_page", 2), ("long_digits", 0.4), ("filler", 6), ("hostile", 2), ("section_glued", 2),
+    ("id_after_odd_page", 3), ("long_digits", 0.4), ("filler", 6), ("hostile", 2), ("section_glued", 2),
 ]
 
 # focus (qualified function name, without the leading "eyecite.") -> template families
